@@ -608,9 +608,8 @@ impl<'a> Searcher<'a> {
 
         // Prevents infinite loops when following symlinks: every real directory is
         // traversed once, whichever way it is reached
-        if self.current_follow_symlinks
-            && !self.visited_dirs.insert(PathBuf::from(canonical_path.unwrap()))
-        {
+        let canonical_dir = PathBuf::from(canonical_path.unwrap());
+        if self.current_follow_symlinks && !self.visited_dirs.insert(canonical_dir.clone()) {
             return Ok(());
         }
 
@@ -627,19 +626,15 @@ impl<'a> Searcher<'a> {
                         Ok(entry) => {
                             let path = entry.path();
                             let pass_ignores = if apply_gitignore || apply_hgignore || apply_dockerignore {
-                                let mut canonical_path = path.clone();
-
-                                if apply_gitignore || apply_hgignore || apply_dockerignore {
-                                    if let Ok(canonicalized) = crate::util::canonical_path(&path) {
-                                        canonical_path = PathBuf::from(canonicalized);
-                                    }
-                                }
+                                // the ignore rules apply to the entry's own location, whatever
+                                // spelling the search root was given in
+                                let canonical_path = canonical_dir.join(entry.file_name());
 
                                 // Check the path against the filters
                                 #[cfg(feature = "git")]
                                 let pass_gitignore = !apply_gitignore
                                     || !(git_repository.is_some() &&
-                                    git_repository.unwrap().is_path_ignored(&path)
+                                    git_repository.unwrap().is_path_ignored(&canonical_path)
                                         .unwrap_or(false));
                                 #[cfg(not(feature = "git"))]
                                 let pass_gitignore = true;
